@@ -89,6 +89,9 @@ impl Property for C01 {
         let keys = all_keys(&case.dic);
         for t in &case.texts {
             let text = render_pieces(&keys, t);
+            if f7_guard(&mut rep, &case.dic, &case.cfg, &text, ctx.strict) {
+                continue;
+            }
             let norm = match normalized_text(&dict, &text) {
                 Ok(n) => Some(n),
                 Err(_) => None,
@@ -110,6 +113,32 @@ impl Property for C01 {
                     Err((clause, detail)) => {
                         rep.fail(&clause, format!("text {:?} mode {}: {}", text, mode_name(mode), detail));
                         return rep;
+                    }
+                }
+                // the rarely used debug mode (lattice and path dumps on standard output) must not change the result
+                if text.len() % 5 == 2 && ml.len() <= 40 {
+                    let same = {
+                        let _quiet = quiet_stdout::enter();
+                        guarded(|| {
+                            let mut tok = sudachi::analysis::stateful_tokenizer::StatefulTokenizer::create(&dict, true, mode);
+                            tok.reset().push_str(&text);
+                            tok.do_tokenize().ok()?;
+                            let mut dl = sudachi::prelude::MorphemeList::empty(&dict);
+                            dl.collect_results(&mut tok).ok()?;
+                            Some(dl.iter().map(|m| (m.begin(), m.end(), m.word_id().as_raw())).collect::<Vec<_>>())
+                        })
+                    };
+                    let plain: Vec<(usize, usize, u32)> = ml.iter().map(|m| (m.begin(), m.end(), m.word_id().as_raw())).collect();
+                    match same {
+                        Ok(Some(d)) if d == plain => rep.class("debug mode agrees"),
+                        Ok(d) => {
+                            rep.fail("debug-mode-differs", format!("text {:?} mode {}: with the debug flag the morphemes are {:?}, without {:?}", text, mode_name(mode), d, plain));
+                            return rep;
+                        }
+                        Err(p) => {
+                            rep.fail(&format!("debug-mode-panic:{}", panic_site(&p)), format!("text {:?}: {}", text, p));
+                            return rep;
+                        }
                     }
                 }
                 if &*ml.surface() != text.as_str() {
